@@ -240,6 +240,7 @@ type svcRunner struct {
 	served     chan string // return value of the serving call
 	serving    bool
 	cancel     context.CancelFunc
+	cancelled  bool // the context of the current serving call has been cancelled
 	nextID     int
 	nsvc       int
 	nreg       int
@@ -337,6 +338,7 @@ func (r *svcRunner) doListenPath(op sOp) bool {
 		r.laddr = fmt.Sprintf("unix:@verif-svcL-%d-%d-%d", os.Getpid(), r.nsvc, r.nlisten)
 		ctx, cancel := context.WithCancel(context.Background())
 		r.cancel = cancel
+		r.cancelled = false
 		r.log.Ev("ListenStart", tr.M{"n": r.nlisten})
 		r.serving = true
 		served := make(chan string, 1)
@@ -356,6 +358,9 @@ func (r *svcRunner) doListenPath(op sOp) bool {
 		}
 		r.clients[op.C] = &svcClient{c: op.C, cli: c, lid: r.nlisten, state: "delivered", reader: bufio.NewReader(c)}
 		r.log.Ev("Connect", tr.M{"c": op.C, "id": r.nlisten})
+		if r.cancelled && r.serving {
+			r.expectEnded(r.clients[op.C])
+		}
 		return true
 	case "Deliver":
 		return true // the kernel and the accept loop do it
@@ -385,6 +390,7 @@ func (r *svcRunner) do(op sOp) {
 	case "Serve":
 		ctx, cancel := context.WithCancel(context.Background())
 		r.cancel = cancel
+		r.cancelled = false
 		var d time.Duration
 		if op.Timeout {
 			d = time.Hour // the controlled listener ignores the deadline; expiries are injected
@@ -431,6 +437,9 @@ func (r *svcRunner) do(op sOp) {
 		select {
 		case l.rel <- accRes{conn: c.srv, c: op.C}:
 			c.state = "delivered"
+			if r.cancelled {
+				r.expectEnded(c)
+			}
 		case <-time.After(3 * time.Second):
 			r.log.Ev("OPFAIL", tr.M{"why": "Deliver: Accept did not take the connection"})
 		}
@@ -442,6 +451,21 @@ func (r *svcRunner) do(op sOp) {
 		case r.cur.rel <- accRes{timeout: true}:
 		case <-time.After(3 * time.Second):
 			r.log.Ev("OPFAIL", tr.M{"why": "Timeout: Accept did not take the expiry"})
+		}
+	case "Cancel":
+		// the application cancels the context it gave to the serving call: every connection of that call
+		// must end by itself (and be accounted for); the accept loop keeps going
+		if !r.serving || r.cancel == nil {
+			r.log.Ev("OPFAIL", tr.M{"why": "Cancel without a serving call"})
+			return
+		}
+		r.log.Ev("CtxCancel", nil)
+		r.cancelled = true
+		r.cancel()
+		for _, k := range []string{"k1", "k2", "k3", "k4"} {
+			if c := r.clients[k]; c != nil && c.state == "delivered" {
+				r.expectEnded(c)
+			}
 		}
 	case "Shutdown":
 		r.log.Ev("ShutdownStart", nil)
@@ -484,6 +508,18 @@ func (r *svcRunner) do(op sOp) {
 	default:
 		panic("unknown op " + op.Op)
 	}
+}
+
+// expectEnded: the service must end this connection by itself (cancelled context): the client sees EOF.
+func (r *svcRunner) expectEnded(c *svcClient) {
+	c.cli.SetReadDeadline(time.Now().Add(3 * time.Second))
+	_, err := c.reader.ReadBytes(0)
+	var ne net.Error
+	if err == nil || (errors.As(err, &ne) && ne.Timeout()) {
+		r.log.Ev("HANG", tr.M{"what": "connection not ended by the service within 3s of the context's cancellation", "c": c.c})
+	}
+	c.cli.Close()
+	c.state = "ended"
 }
 
 func (r *svcRunner) endClient(c *svcClient, how string) {
